@@ -451,7 +451,10 @@ class Engine(object):
         if kind == 'str':
             return SStr(z3.Select(self.heap_array(attr), ref.t))
         if isinstance(kind, tuple) and kind[0] == 'ref':
-            return SRef(z3.Select(self.heap_array(attr), ref.t), kind[1], False)
+            cls = kind[1](self) if callable(kind[1]) else kind[1]
+            return SRef(z3.Select(self.heap_array(attr), ref.t), cls, len(kind) > 2 and kind[2])
+        if kind == 'fnval':
+            return OpaqueFn(ref, attr)
         if isinstance(kind, tuple) and kind[0] == 'optref':
             return SOptRef(z3.Select(self.heap_array(attr + '#none'), ref.t), z3.Select(self.heap_array(attr), ref.t), kind[1])
         raise OutOfSubset('attribute kind %r' % (kind,))
@@ -548,6 +551,8 @@ class Engine(object):
             if cls is not None and isinstance(cls, ClassInfo) and cls.lookup('__len__'):
                 raise OutOfSubset('truthiness of object with __len__')
             return True
+        if isinstance(v, OpaqueFn):
+            return True
         if isinstance(v, Sym):
             raise OutOfSubset('truthiness of %r' % (v,))
         return bool(v)
@@ -562,6 +567,13 @@ def _has_quantifier(t, depth=0):
     if depth > 6:
         return False
     return any(_has_quantifier(c, depth + 1) for c in t.children())
+
+
+class OpaqueFn(Sym):
+    """function-valued attribute (e.g. field.encode_fcn): calls go to the contract's call hook"""
+
+    def __init__(self, owner, attr):
+        self.owner, self.attr = owner, attr
 
 
 class SOptRef(Sym):
